@@ -1,6 +1,7 @@
 """C03 Verifier verdict equals the unbatched Bulletproofs verification relations."""
 import json, collections
 import vlib
+from checks import gadgets
 
 
 def run(chk):
@@ -15,6 +16,9 @@ def run(chk):
         progs, sums, rej = vlib.toy_traces(chk, curve, kind, n, vlib.flags(V=1), "verdict", seed_off=i)
         for s in sums:
             outcomes[(curve, s["vres"][:20] or s["pres"][:20])] += 1
+    gad = [dict(p) for p, holds in gadgets.workload(chk.seed, q)]
+    for curve in ("toy79", "toy31723"):
+        vlib.toy_traces(chk, curve, "gadgets", 0, vlib.flags(V=1), "verdict-gadget", progs=[dict(p) for p in gad], name="gad" + curve)
     chk.cov["verdicts_observed"] = {"%s:%s" % k: v for k, v in sorted(outcomes.items())}
     chk.finish(
         rule="seeded random programs (honest, one violated constraint/gate, one tampered proof field, free constraints) run through the real "
